@@ -83,7 +83,7 @@ func pathOf(v, top *decode.Value) []any {
 	var p []any
 	for v != top {
 		if c := v.Parent.V.(*decode.Compound); c.IsArray {
-			p = append([]any{v.Index}, p...)
+			p = append([]any{int(v.Index)}, p...)
 		} else {
 			p = append([]any{v.Name}, p...)
 		}
